@@ -10,13 +10,24 @@ BASE = os.environ.get("TRY_REPO", "/repo")
 patch = sys.argv[1]
 props = sys.argv[2:] or [f"C{i:02d}" for i in range(1, 20)]
 ov = apply_unified_diff(BASE, open(patch, encoding="utf8").read())
+own_base = None
 if ov is None:
-    print("patch does not apply"); sys.exit(3)
+    from sa.selftest import _stale_overlays
+    st = _stale_overlays(BASE, patch)  # made against an earlier commit: judge it against its own base files
+    if st is None:
+        print("patch does not apply"); sys.exit(3)
+    own_base, ov = st
 for p in props:
     try:
         prog = Program(BASE, ov)
         chk = run_rules(p, prog, "quick")
         nf = new_failures(chk)
+        if own_base is not None:
+            try:
+                b0 = run_rules(p, Program(BASE, own_base), "quick").failure_keys()
+            except AnalysisError:
+                b0 = set()
+            nf = [k for k in nf if k not in b0]
         st = "FAIL" if nf else ("REFUSED" if chk.refusals else "ok")
         if st != "ok" or len(props) == 1:
             print(p, st)
